@@ -49,6 +49,9 @@ TABLE = {
     "C07": (MC, "2,4-C07",
             "explicit-state BFS over pairs of containers (W2): all shapes of both operands x allocator trait grid (8 POCCA/POCMA/POCS combinations, always-equal, std::allocator) x equal/unequal instances x capacity pairs; allocator instance ids observed after every copy/move construction, assignment and swap",
             "Every binary operation from every pair of shapes in every trait/equality configuration; get_allocator() ids compared with what the traits prescribe, select_on_container_copy_construction made distinguishable, buffer ownership (block owner == get_allocator()) probed on every later state."),
+    "C08": (MC, "3,4-C08",
+            "model = run-time state graph built by explicit-state BFS; every fault-free edge (witness history + operation) is replayed by the constant evaluators of g++ and clang++ (constexpr interpreter, C++20) and its digest compared with the run-time digest of the same function",
+            "All edges of the bounded W1 graphs (N in {0,1,2,3}) and W2 graphs (pairs of capacities) for a trivial (int) and a non-trivial literal element type that owns an allocation, under g++ and clang++: the evaluator must accept every trace (no UB, no out-of-lifetime access, no leak) and agree with run time on sizes, values, returned positions and capacities (minus what the property exempts)."),
     "C09": (MC, "2,4-C09",
             "explicit-state BFS over pairs of containers (W2); must-steal predicate from the statement evaluated on every move construction / move assignment / swap; data() identity and the element-event log on the transferred block",
             "All (size,capacity,inline/heap) states of source and destination x capacity pairs x allocator trait/equality configurations x {move ctor, allocator-extended move ctor, move assign, cross-capacity assign(&&), swap}: if stealing is permitted data() must be the old buffer with zero element events on it and the source empty+inlined; stealing where forbidden is flagged too."),
@@ -64,16 +67,22 @@ TABLE = {
     "C16": (EX, "4-C16",
             "exhaustive input enumeration: all pairs of contents over a 3-letter alphabet up to a length bound x capacity pairs x element types x every comparison operator, per standard/compiler; non-member accessors on every state of a W1/W2 graph",
             "Complete tables (no sampling) compared with std::vector and checked for mutual consistency, under the six-operator (C++11/17) and three-way (C++20) operator sets; erase/erase_if over every content and every value/predicate."),
+    "C17": (MC, "3,4-C17",
+            "differential model checking: the same explicit-state exploration (W1, W2, W3 configurations) is built under every language standard / compiler / GCH_DISABLE_CONCEPTS and the ordered digests of the gating records (contents, sizes, capacities, returns, exceptions of fault-free and allocation-failure edges) must be identical; first differing transition is the replay",
+            "13 configurations x 5 builds (quick) / 14 builds (thorough): g++ 12 and clang++ 14 x C++11..23 (+ GCH_DISABLE_CONCEPTS). Element-operation counts are compared as information only."),
     "C18": (MC, "3,4-C18",
             "(a) complete static grid of noexcept/trait queries evaluated by the compiler against the README conditions; (b) explicit-state BFS with exception injection: a non-noexcept operation must deliver the injected exception (std::terminate in a forked worker = violation), a noexcept one must pass zero fault points",
             "(a) 480 grid points x 15 queries x 3 (quick) or 8 (thorough) standard/compiler builds; (b) every fault point of every operation in W1 and W2 incl. caller iterators and generators."),
     "C19": (EX, "3,4-C19",
             "complete enumeration of the layout grid named by the property (element size x alignment x allocator state x size_type), sizeof/alignof evaluated by the compiler, oracle computed independently",
             "No executions exist for this property; the finite configuration grid is enumerated completely (1904 points quick, 3976 thorough) and every point compared with an independent oracle."),
+    "C20": (MC, "3,4-C20",
+            "every state of a bounded state graph (BFS over the generator alphabet, 7 element/N/allocator configurations) is rebuilt in a driver process and shown to a GDB batch session running the shipped pretty-printer; natvis member paths extracted from the XML are evaluated on every state by a -fno-access-control translation unit",
+            "All (size, capacity, inline/heap) states with size <= 5 (quick) / 8 (thorough) for int, a class type and std::string, N in {0,2,3}, std::allocator and a stateful allocator: printer to_string/children vs size()/capacity()/iteration, iterators print the referenced element; natvis paths resolve to the same fields."),
 }
 
 ENGINE_OF = {p: "svmc" for p in TABLE}
-ENGINE_OF.update({"C16": "tables+svmc", "C19": "grid", "C18": "grid+svmc", "C13": "svmc+grid"})
+ENGINE_OF.update({"C16": "tables+svmc", "C19": "grid", "C18": "grid+svmc", "C13": "svmc+grid", "C08": "svmc+ce", "C17": "svmc", "C20": "gdbdrv"})
 
 
 def main():
@@ -113,6 +122,10 @@ def main():
              "kind_free_text": "hand-written explicit-state model checker; the real gch::small_vector is the transition function, std::vector + ledger the reference model; deviation-bounded exception injection; forked, crash-supervised workers"},
             {"name": "grid", "path": "tools/grids.py", "serves_properties": ["C18", "C19"],
              "kind_free_text": "generated translation units (<= 96 heavy instantiations each) that print complete static grids; independent oracle in Python"},
+            {"name": "ce", "path": "engine/ce.hpp", "serves_properties": ["C08"],
+             "kind_free_text": "C++20 constexpr interpreter of svmc traces; generated translation units evaluate every trace at compile time (g++, clang++) and at run time"},
+            {"name": "gdbdrv", "path": "engine/gdbdrv_main.cpp", "serves_properties": ["C20"],
+             "kind_free_text": "state-graph driver observed through GDB batch mode with the shipped pretty-printer; natvis path evaluation"},
             {"name": "tables", "path": "engine/cmp_main.cpp", "serves_properties": ["C16"],
              "kind_free_text": "exhaustive comparison / erase tables against std::vector"},
         ],
